@@ -325,11 +325,19 @@ def build(node, fresh=False):
 
 
 # ------------------------------------------------------------------------------------------------ project
+_TABLE_PROJECTIONS = {}
+
+
 def project(obj):
     """Real DSL object (source or feature) -> AST, through public attributes only."""
     dsl = _dsl()
     if isinstance(obj, dsl.Table):
-        return table(obj.schema.__name__, [(f.name, kind_name(f.kind)) for f in obj.schema])
+        # iterating a schema is slow in forml and tables are immutable: remember the projection per table object
+        hit = _TABLE_PROJECTIONS.get(id(obj))
+        if hit is None or hit[0] is not obj:
+            hit = (obj, table(obj.schema.__name__, [(f.name, kind_name(f.kind)) for f in obj.schema]))
+            _TABLE_PROJECTIONS[id(obj)] = hit
+        return hit[1]  # shared: ASTs are never modified in place (replace() copies)
     if isinstance(obj, dsl.Reference):
         return ref(project(obj.instance), obj.name)
     if isinstance(obj, dsl.Join):
